@@ -341,6 +341,7 @@ def _res_field_differs(m, field):
 
 
 def c09(run):
+    windowed_part(run, "C09")
     # every mismatch of the Limiter contract is about the window / the samples handed to the algorithm
     limiter_pipeline(run, "C09", lambda m: {"kind": "default", "what": "samples" if _res_field_differs(m, "samples") else "state"},
                      lambda rj, tr: {"kind": "default", "why": rj["why"]})
@@ -443,6 +444,216 @@ def c03(run):
     def classify(kind, m):
         return {"kind": kind, "op": (m.get("op") or {}).get("op") if isinstance(m.get("op"), dict) else None}
     partition_pipeline(run, "C03", classify)
+
+
+# ------------------------------------------------------------------ limit algorithms (C04 C06 C07 C08 C15 C16)
+def aimd_cfg(bnum, bden, inc, initial, maxl):
+    return ("CONSTANTS BNum = %d BDen = %d Inc = %d Initial = %d MaxL = %d Emit = TRUE\nINIT Init\nNEXT Next\n"
+            "INVARIANTS DropLowers DropRunReachesFloor Bounds Notified\nCHECK_DEADLOCK FALSE\n") % (bnum, bden, inc, initial, maxl)
+
+
+def limits_pipeline(run, prop, classes, twin=False, aimd=True, vegas=True):
+    th = run.tier == "thorough"
+    indir = os.path.join(run.scratch, "in")
+    os.makedirs(indir, exist_ok=True)
+    if aimd:
+        # exact AIMD model: design check + every transition replayed on the real AIMDLimit
+        for name, c in {"half": (1, 2, 1, 10, 60 if th else 40), "seven8": (7, 8, 2, 3, 60 if th else 40), "one": (1, 1, 1, 5, 30), "nine10": (9, 10, 1, 10, 40)}.items():
+            r = run.tlc("Aimd", name + ".cfg", cfg_text=aimd_cfg(*c), label="mc+gen:Aimd/" + name)
+            if r.error or not r.ok:
+                raise Machinery("TLC %s: %s %s\n%s" % (r.label, r.error, r.violation, r.raw[-3000:]))
+            run.states += r.distinct
+            run.transitions += r.generated
+            emit_graph(run, r, os.path.join(indir, "aimd_%s.ndjson" % name))
+        out, _ = run.go("^TestAimdReplay$", env={"VERIF_IN": indir})
+        for rep in json.load(open(os.path.join(out, "aimd_replay.json"))):
+            for m in graph_report(run, prop, rep, "Aimd/" + os.path.basename(rep["file"])):
+                run.report("AIMD: after sample %s the real limit is %s (notified %s), the exact model fixes %s (%s)" % (
+                    json.dumps(m["op"]), m["got_obs"], m["got_res"], m["exp_obs"], m["exp_res"]),
+                    {"mismatch": m, "rerun": "bin/check %s" % prop}, {"algo": "aimd", "class": "exact"})
+    if vegas:
+        # exact Vegas model in the float-exact sub-domain: design check of the five Vegas properties in every reachable
+        # state, then every transition on the real VegasLimit
+        for name, (mx, ini) in {"120": (120, 20), "20": (20, 3)}.items() if not th else {"120": (120, 20), "20": (20, 3), "300": (300, 50)}.items():
+            cfgt = ("CONSTANTS MaxLimit = %d Initial = %d Rtts = {0, 1, 2, 4, 8, 16} Emit = TRUE\nINIT Init\nNEXT Next\n"
+                    "INVARIANTS Bounds DropNeverRaises AppLimitedNeverRaises Monotone BaselineIsMin HealthyRunRecovers DropRunReachesFloor\nCHECK_DEADLOCK FALSE\n") % (mx, ini)
+            r = run.tlc("VegasModel", "v%s.cfg" % name, cfg_text=cfgt, label="mc+gen:VegasModel/" + name)
+            if r.error or not r.ok:
+                raise Machinery("TLC %s: %s %s\n%s" % (r.label, r.error, r.violation, r.raw[-3000:]))
+            run.states += r.distinct
+            run.transitions += r.generated
+            emit_graph(run, r, os.path.join(indir, "vegas_%s.ndjson" % name))
+        out, _ = run.go("^TestVegasReplay$", env={"VERIF_IN": indir})
+        for rep in json.load(open(os.path.join(out, "vegas_replay.json"))):
+            mism = graph_report(run, prop, rep, "VegasModel/" + os.path.basename(rep["file"]))
+            run.extra.setdefault("vegas_exact_model_mismatches", 0)
+            run.extra["vegas_exact_model_mismatches"] += len(mism)
+            for m in mism:
+                # a deviation from the exact model is a violation only if the real step itself breaks the property
+                try:
+                    frm = json.loads(m["path"] and "{}" or "{}")
+                    got, exp = json.loads(m["got_obs"] or "{}"), json.loads(m["exp_obs"] or "{}")
+                    op = m["op"]
+                except Exception:
+                    continue
+                bad = None
+                ge = got.get("est")
+                if ge is None or ge < 1:
+                    bad = "bounds"
+                elif op.get("drop") and exp.get("est") is not None and ge > exp["est"] and "loss" in classes:
+                    bad = "loss"
+                elif not op.get("drop") and exp.get("est") is not None and ge > exp["est"] and "demand" in classes:
+                    bad = "demand"
+                if bad and bad in classes | {"bounds"}:
+                    run.report("Vegas: after %s the real limit went to %s where the exact model (and the property) allow at most %s" % (json.dumps(op), m["got_obs"], m["exp_obs"]),
+                               {"mismatch": m, "rerun": "bin/check %s" % prop}, {"algo": "vegas", "class": bad})
+    n = 1200 if th else 160
+    out, _ = run.go("^TestLimitRandom$", env={"VERIF_N": n}, timeout=1200)
+    tp = os.path.join(out, "limit_trace.ndjson")
+    files = [tp]
+    if twin:
+        out2, _ = run.go("^TestLimitTwin$", env={"VERIF_N": 600 if th else 90}, timeout=1200)
+        files.append(os.path.join(out2, "twin_trace.ndjson"))
+    stats = {"samples": 0, "probes": 0, "drops": 0, "zero_rtt": 0, "runs": 0, "twins": 0, "twins_strict": 0, "by_algo": {}}
+    for f in files:
+        rejects, total = validate_sharded(run, "LimitTrace", "Limit_trace.cfg", f)
+        run.events += total
+        cfg = None
+        with open(f) as fh:
+            for line in fh:
+                x = json.loads(line)
+                if x["ev"] == "Reset":
+                    cfg = x["cfg"]
+                    run.traces += 1
+                elif x["ev"] == "Sample":
+                    stats["samples"] += 1
+                    k = cfg["algo"] + "/" + cfg["wrap"]
+                    stats["by_algo"][k] = stats["by_algo"].get(k, 0) + 1
+                    stats["probes"] += 1 if x["obs"]["probe"] else 0
+                    stats["drops"] += 1 if x["in"]["drop"] else 0
+                    stats["zero_rtt"] += 1 if x["in"]["zero"] else 0
+                elif x["ev"] == "RunEnd":
+                    stats["runs"] += 1
+                elif x["ev"] == "Twin":
+                    stats["twins"] += 1
+                    stats["twins_strict"] += 1 if x["esthi"] < x["estlo"] else 0
+        seen = set()
+        rows = None
+        for rj in rejects:
+            if rj["class"] not in classes:
+                run.extra.setdefault("rejections_of_other_classes", {})
+                run.extra["rejections_of_other_classes"][rj["class"]] = run.extra["rejections_of_other_classes"].get(rj["class"], 0) + 1
+                continue
+            key = (rj["trace"], rj["class"])
+            if key in seen:
+                continue
+            seen.add(key)
+            if rows is None:
+                rows = vlib.read_ndjson(f)
+            tr = [x for x in rows if x["trace"] == rj["trace"] and x.get("i", 0) <= rj["i"]] if rj["class"] != "monotone" else [x for x in rows if x["trace"] == rj["trace"] and x["ev"] == "Reset"] + [rj["logged"]]
+            cfg = tr[0]["cfg"] if tr and tr[0]["ev"] == "Reset" else {}
+            run.report("%s limit (%s): sample %d of recorded sequence %d rejected by the contract (%s: %s)" % (
+                cfg.get("algo"), cfg.get("wrap"), rj["i"], rj["trace"], rj["class"], rj["why"]),
+                {"config": cfg, "sequence": tr[-40:], "reject": rj, "rerun": "VERIF_SEED=%d bin/check %s --tier %s" % (run.seed, prop, run.tier)},
+                {"algo": cfg.get("algo"), "class": rj["class"]})
+    run.extra["limit_traces"] = stats
+    if stats["probes"] == 0 or stats["drops"] == 0 or stats["zero_rtt"] == 0 or stats["runs"] == 0 or (twin and stats["twins_strict"] == 0):
+        raise Machinery("limit sequences are vacuous: %s" % stats)
+    with open(tp) as fh:
+        run.sample({"recorded_samples": [json.loads(next(fh)) for _ in range(3)]})
+    run.extra["rejection_classes_checked"] = sorted(classes)
+    run.assumptions += [
+        "AIMD is modelled exactly (integer arithmetic, dyadic back-off ratios and 9/10); Vegas, Gradient and Gradient2 are floating-point: only the contract's order relations on exactly encoded values are checked, never a numeric value",
+        "configuration preconditions: Gradient initial limit >= queue allowance and >= minimum, rtt tolerance >= 1; Vegas probe multiplier >= 4 (with 1 or 2 every sample at an estimate below 2 is a probe, which C15's own bound demands, and nothing can grow)",
+        "baselines are compared with the float64 value of the RTT (identical below 2^53)",
+        "run bounds (drop run reaches the floor, healthy run the ceiling) are closed formulas computed by the harness, documented in harness/limits_test.go",
+    ]
+
+
+def c04(run):
+    limits_pipeline(run, "C04", {"bounds"})
+
+
+def c06(run):
+    limits_pipeline(run, "C06", {"loss"})
+
+
+def c07(run):
+    limits_pipeline(run, "C07", {"demand"})
+
+
+def c08(run):
+    limits_pipeline(run, "C08", {"monotone"}, twin=True, aimd=False)
+
+
+def c15(run):
+    limits_pipeline(run, "C15", {"baseline"}, aimd=False)
+
+
+def c16(run):
+    limits_pipeline(run, "C16", {"notify"}, vegas=False)
+
+
+def measure_part(run, prop):
+    th = run.tier == "thorough"
+    n = 3000 if th else 360
+    out, _ = run.go("^TestMeasureRandom$", env={"VERIF_N": n})
+    tp = os.path.join(out, "measure_trace.ndjson")
+    rejects, total = validate_sharded(run, "MeasureTrace", "Measure_trace.cfg", tp)
+    run.traces += n
+    run.events += total
+    rows = None
+    seen = set()
+    for rj in rejects:
+        key = (rj["kind"], rj["why"])
+        if key in seen:
+            continue
+        seen.add(key)
+        if rows is None:
+            rows = vlib.read_ndjson(tp)
+        tr = [x for x in rows if x["trace"] == rj["trace"]][:60]
+        run.report("%s measurement: recorded sequence %d rejected (%s)" % (rj["kind"], rj["trace"], rj["why"]),
+                   {"sequence": tr, "reject": rj, "rerun": "VERIF_SEED=%d bin/check %s" % (run.seed, prop)}, {"kind": rj["kind"], "why": rj["why"]})
+    with open(tp) as fh:
+        run.sample({"measurement_sequence_excerpt": [json.loads(next(fh)) for _ in range(3)]})
+    return total
+
+
+def c18(run):
+    measure_part(run, "C18")
+    # the sample window as used by the default limiter: exact fold on every transition of the Limiter graph
+    limiter_pipeline(run, "C18", lambda m: {"kind": "window"} if _res_field_differs(m, "samples") else None, lambda rj, tr: None, graphs=True)
+    run.assumptions += ["numerical accuracy of the floating-point primitives is not modelled (order relations on exact bit patterns only)"]
+
+
+def windowed_part(run, prop):
+    th = run.tier == "thorough"
+    n = 2000 if th else 200
+    out, _ = run.go("^TestWindowedRandom$", env={"VERIF_N": n})
+    tp = os.path.join(out, "windowed_trace.ndjson")
+    rejects, total = validate_sharded(run, "WindowedTrace", "Windowed_trace.cfg", tp)
+    run.traces += n
+    run.events += total
+    closes = 0
+    with open(tp) as fh:
+        for line in fh:
+            if '"out":[{' in line:
+                closes += 1
+    if closes < 10:
+        raise Machinery("windowed sequences are vacuous (%d window closings)" % closes)
+    run.extra["windowed"] = {"sequences": n, "calls": total - n, "windows_closed": closes}
+    rows = None
+    seen = set()
+    for rj in rejects:
+        if rj["trace"] in seen:
+            continue
+        seen.add(rj["trace"])
+        if rows is None:
+            rows = vlib.read_ndjson(tp)
+        tr = [x for x in rows if x["trace"] == rj["trace"]]
+        n0 = sum(1 for x in rows[: rj["line"]] if x["trace"] == rj["trace"])
+        run.report("windowed limit: recorded sequence %d rejected (%s): expected %s, forwarded %s" % (rj["trace"], rj["why"], json.dumps(rj["expected"]), json.dumps(rj["logged"])),
+                   {"sequence": tr[:n0], "reject": rj, "rerun": "VERIF_SEED=%d bin/check %s" % (run.seed, prop)}, {"kind": "windowed", "why": rj["why"]})
 
 
 # ------------------------------------------------------------------------------ C20
@@ -635,7 +846,14 @@ CHECKS = {
     "C01": c01,
     "C02": c02,
     "C03": c03,
+    "C04": c04,
     "C05": c05,
+    "C06": c06,
+    "C07": c07,
+    "C08": c08,
+    "C15": c15,
+    "C16": c16,
+    "C18": c18,
     "C09": c09,
     "C10": c10,
     "C14": c14,
